@@ -1,5 +1,6 @@
 import MemcVerif.Model.Handler
 import MemcVerif.Proofs.BE
+import MemcVerif.Proofs.RespRT
 /-!
 # C11 — every response is a well-formed, correctly correlated frame
 
@@ -154,6 +155,27 @@ theorem C11_magic_and_datatype (r : Resp) :
     (encode r).take 1 = [0x81] ∧ ((encode r).drop 5).take 1 = [0] := by
   simp [encode, encodeHeader, putBE]
 
+/-- what is written is what a client reads: every header field of every response whose fields fit their
+    widths is recovered from the encoded octets, whatever follows them on the stream -/
+theorem C11_header_roundtrip (r : Resp) (hr : r.header.inRange) (rest : Bytes) :
+    parseRespHeader (encode r ++ rest) = r.header := by
+  obtain ⟨body, hb⟩ := encode_eq r
+  rw [hb, List.append_assoc]
+  exact parseRespHeader_encode _ hr _
+
+/-- **the response stream stays parseable**: a client that reads 24 octets, then `body_length` more, cuts
+    any concatenation of well-formed responses — of any number, to any requests — exactly at the response
+    boundaries, so every response is found and correlated by its own header -/
+theorem C11_client_framing (rs : List (Req × Resp)) (hwf : ∀ p ∈ rs, wellFormed p.1 p.2 = true)
+    (hr : ∀ p ∈ rs, p.2.header.inRange) :
+    clientSplit rs.length ((rs.map (fun p => encode p.2)).flatten) = rs.map (fun p => encode p.2) := by
+  have h := clientSplit_responses (rs.map (·.2)) (by
+    intro r hmem
+    obtain ⟨p, hp, rfl⟩ := List.mem_map.mp hmem
+    exact ⟨hr p hp, C11_frame_length p.1 p.2 (hwf p hp)⟩) rs.length (by simp)
+  simp only [List.map_map, List.length_map] at h
+  exact h
+
 example : wellFormed (.get ⟨0x80, 0x0c, 1, 0, 0, 0, 1, 7, 0⟩ [65])
     (.get { opcode := 0x0c, opaq := 7, extrasLen := 4, keyLen := 1, bodyLen := 7, cas := 3 } 9 [65] [1, 2]) = true := by decide
 
@@ -168,3 +190,5 @@ end Memc
 #print axioms Memc.C11_wellformed
 #print axioms Memc.C11_frame_length
 #print axioms Memc.C11_magic_and_datatype
+#print axioms Memc.C11_header_roundtrip
+#print axioms Memc.C11_client_framing
